@@ -321,7 +321,7 @@ Definition extract (ms : list member) : fs := fold_left extract_step ms [].
    (every symbolic link followed, the last one included, as stat does). *)
 Definition link_comps (cur : list str) (d : str) : list str * list str :=
   match d with
-  | ch :: d' => if ch =? SL then ([], split_on SL d') else (cur, split_on SL d)
+  | ch :: d' => if ch =? SL then ([], filter nonempty (split_on SL d')) else (cur, split_on SL d)
   | [] => (cur, [])
   end.
 
@@ -414,6 +414,38 @@ Definition wf_zip (ms : list member) : bool :=
   forallb name_ok ms && all_pairs no_clash ms.
 Definition is_link (m : member) : bool := match m_kind m with KLink _ => true | _ => false end.
 Definition no_links (ms : list member) : bool := forallb (fun m => negb (is_link m)) ms.
+
+(* link targets for which the lexical rule of populate_cache (normpath) and the
+   OS rule agree: absolute = "/" followed by proper names (or nothing: the root);
+   relative = any number of leading ".." followed by proper names.  Excluded:
+   "." and empty components, and ".." after a name (`a/../b` needs `a` to exist
+   and not to be a link for the two rules to agree). *)
+Fixpoint strip_dotdots (cs : list str) : nat * list str :=
+  match cs with
+  | c :: r => if str_eqb c P_DOTDOT then let (k, n) := strip_dotdots r in (S k, n) else (0%nat, cs)
+  | [] => (0%nat, [])
+  end.
+Definition nice_dest (d : str) : bool :=
+  match d with
+  | [] => false
+  | ch :: d' =>
+      if ch =? SL then is_nil d' || forallb plain_comp (split_on SL d')
+      else forallb plain_comp (snd (strip_dotdots (split_on SL d)))
+  end.
+Definition nice_links (ms : list member) : bool :=
+  forallb (fun m => match m_kind m with KLink d => nice_dest d | _ => true end) ms.
+
+(* ---------- what the members say (specification side) ---------- *)
+(* p is a directory: the root, or a prefix of the directory part of some member *)
+Definition is_dirpath (ms : list member) (p : list str) : Prop :=
+  p = [] \/ exists m, In m ms /\ path_prefixb p (name_levels (m_name m)) = true.
+(* p is the k-th member, a file *)
+Definition is_entry (ms : list member) (k : nat) (p : list str) : Prop :=
+  exists m, nth_error ms k = Some m /\ is_link m = false /\ entry_path m = Some p.
+
+(* query strings: "" (the archive root) or proper names joined by "/" *)
+Definition canonb (s : str) : bool := is_nil s || forallb plain_comp (split_on SL s).
+Definition qcomps (s : str) : list str := match s with [] => [] | _ => split_on SL s end.
 
 (* ---------- the six VFS operations as one function ---------- *)
 Inductive vop := VStat | VIsdir | VIsfile | VExists | VListdir | VOpen.
